@@ -396,3 +396,71 @@ def replay_h_overwrite(e0, e1, e2, e3, n0, n1, n2, n3, qfirst):
         return False, "model and dataset agree"
     finally:
         shutil.rmtree(d, ignore_errors=True)
+
+
+# ------------------------------------------------------------------ the handle after an edit made through it ---
+def _stat_handle(rows, maxes):
+    import struct
+    from fastparquet import parquet_thrift as pt
+    rgs = []
+    for i, (n, m) in enumerate(zip(rows, maxes)):
+        st = pt.Statistics(null_count=0, max=struct.pack("<q", m), min=struct.pack("<q", m - 5))
+        md = pt.ColumnMetaData(type=2, encodings=[0], path_in_schema=["a"], codec=0, num_values=n,
+                               total_uncompressed_size=8, total_compressed_size=8, data_page_offset=4, statistics=st)
+        rgs.append(pt.RowGroup(columns=[pt.ColumnChunk(file_offset=4, meta_data=md, file_path="part.%d.parquet" % i)],
+                               total_byte_size=8, num_rows=n))
+    fmd = pt.FileMetaData(version=1, schema=[pt.SchemaElement(name="schema", num_children=1),
+                                              pt.SchemaElement(name="a", type=2, repetition_type=0)],
+                          num_rows=sum(rows), row_groups=rgs, created_by=b"fastparquet-python version 1 (build 0)")
+    pf = object.__new__(ParquetFile)
+    pf.__setstate__({"fn": "d/_metadata", "open": None, "fmd": fmd, "pandas_nulls": True, "_base_dtype": None,
+                     "tz": None, "_columns_dtype": None})
+    return pf
+
+
+def h_handle_after_remove(n0: int, n1: int, n2: int, drop: int, looked: bool) -> bool:
+    """
+    pre: 1 <= n0 <= 1000 and 1 <= n1 <= 1000 and 1 <= n2 <= 1000 and 0 <= drop <= 2
+    post: __return__
+    """
+    # a real handle over three part files; one row group is removed THROUGH the handle (possibly after its statistics
+    # were looked at): what the handle then reports - row groups, counts, per-row-group statistics - describes the two
+    # row groups that are left
+    drop = _pick(drop, 0, 2)
+    rows, maxes = [n0, n1, n2], [10, 20, 30]
+    pf = _stat_handle(rows, maxes)
+    if looked:
+        if [int(x) for x in pf.statistics["max"]["a"]] != maxes:
+            return False
+    removed = []
+    pf.remove_row_groups(pf.row_groups[drop], write_fmd=False, remove_with=lambda paths: removed.extend(paths))
+    keep = [i for i in range(3) if i != drop]
+    st = pf.statistics
+    return (removed == ["d/part.%d.parquet" % drop] and len(pf.row_groups) == 2 and
+            pf.count() == rows[keep[0]] + rows[keep[1]] and pf.info["rows"] == rows[keep[0]] + rows[keep[1]] and
+            [int(x) for x in st["max"]["a"]] == [maxes[i] for i in keep] and
+            [int(x) for x in st["min"]["a"]] == [maxes[i] - 5 for i in keep])
+
+
+def replay_h_handle_after_remove(n0, n1, n2, drop, looked):
+    import shutil, tempfile
+    import pandas as pd
+    import fastparquet
+    d = tempfile.mkdtemp(prefix="c09-")
+    try:
+        dn = os.path.join(d, "ds")
+        fastparquet.write(dn, pd.DataFrame({"a": [1, 2, 11, 12, 21, 22]}), file_scheme="hive",
+                          row_group_offsets=[0, 2, 4], stats=True)
+        pf = fastparquet.ParquetFile(dn)
+        if looked:
+            pf.statistics
+        pf.remove_row_groups(pf.row_groups[drop])
+        got = [int(x) for x in pf.statistics["max"]["a"]]
+        want = [int(x) for x in fastparquet.ParquetFile(dn).statistics["max"]["a"]]
+        if got != want or pf.count() != 4:
+            return True, "after remove_row_groups (row group %d of 3%s) the handle reports max(a) per row group = %r, " \
+                         "count() = %d; a fresh handle reports %r" % (
+                             drop, ", statistics read before" if looked else "", got, pf.count(), want)
+        return False, "handle describes what is left"
+    finally:
+        shutil.rmtree(d, ignore_errors=True)
